@@ -368,6 +368,7 @@ def main(tier, seed):
     for i in range(nb):
         batches.append({"kind": "node", "cases": ncases[i::nb]})
     acc = harness.run_workers("checks.c03_malformed", "run_batch", batches, 3000)
+    harness.require_vnet_fidelity(acc)
     return harness.finish(PROP, tier, seed, "fault_enumeration", acc, RULE,
                           ["part A (decoder): step bound 4*len+64 loop iterations per decode call (both load loops); part B (live node): malformed bytes x connection states under the deterministic scheduler, judged by lock-owner, clean-close and responsiveness monitors",
                            "every library error derives from BaseException and lives in bromelia.exceptions",
